@@ -42,6 +42,8 @@ class Contract:
     locals: dict = field(default_factory=dict) # declared types for locals that cannot be inferred
     ghosts: dict = field(default_factory=dict) # ghost results: name -> T  (existential witnesses of the postcondition)
     ghost_witness: object = None               # f(o, e) -> {name: Sym}: the witnesses, chosen from the exit environment
+    loop_post_isolated: dict = field(default_factory=dict)   # ordinal -> ([axioms], f(e) -> Bool): exit lemma proved from the exit invariant (and the negated
+                                               # loop condition) and the listed axioms *only*, then available to the code after the loop
     ghost_state: dict = field(default_factory=dict)   # name -> (T, f(o) -> Sym): specification-only variables, read in invariants as e.get('$g.<name>')
     ghost_updates: dict = field(default_factory=dict) # loop ordinal -> f(e) -> {name: Sym}: assignment executed at the end of every iteration of that loop
     entry_lemmas: object = None                # f(o) -> [(name, [local axioms], Bool)]: consequences of the precondition, each proved *in isolation*
@@ -274,7 +276,8 @@ class Engine:
         ks = [self.ev(k, st) for k in e.keys]; vs = [self.ev(v, st) for v in e.values]
         t = TMap(ks[0].t, vs[0].t)
         if any(k.t != ks[0].t for k in ks) or any(v.t != vs[0].t for v in vs): raise Unsupported('dict literal with mixed types')
-        dom = TSet(ks[0].t).empty().term; val = t.ftype('val').fresh('dictlit').term
+        # values at absent keys: one fixed (unconstrained) constant per value sort, so that a specification can name the same literal
+        dom = TSet(ks[0].t).empty().term; val = K(ks[0].t.sort(), Const(f'absent!{vs[0].t.name}', vs[0].t.sort()))
         for k, v in zip(ks, vs): dom = Store(dom, k.term, True); val = Store(val, k.term, v.term)          # later keys win, as in Python
         return t.make(dom=Sym(TSet(ks[0].t), dom), val=Sym(t.ftype('val'), val))
 
@@ -457,7 +460,10 @@ class Engine:
                 self.assign(f.value, Sym(t, Store(recv.term, args[0].term, False)), st); return NONE_SYM
         if isinstance(t, TSeq):
             if a == 'append' and len(args) == 1 and args[0].t == t.elem:
-                self.assign(f.value, Sym(t, Concat(recv.term, Unit(args[0].term))), st); return NONE_SYM
+                new = Concat(recv.term, Unit(args[0].term)); kq = Const(fresh_name('ak'), IntSort()); n0 = Length(recv.term)
+                # theory-valid facts about the appended sequence, stated pointwise (the solver does not unfold seq.++ under quantifiers)
+                st.pc.append(And(Length(new) == n0 + 1, new[n0] == args[0].term, ForAll([kq], Implies(And(0 <= kq, kq < n0), new[kq] == recv.term[kq]))))
+                self.assign(f.value, Sym(t, new), st); return NONE_SYM
         if isinstance(t, TBag):
             if a == 'append':
                 v = args[0].term
@@ -741,6 +747,12 @@ class Engine:
         def exit_state(final_inv, extra=None):
             ex = st.copy(); self.havoc(ex, mod, f'X{ordinal}'); ex.pc.append(final_inv(ex))
             if extra is not None: ex.pc.append(extra(ex))          # negated loop condition of a `while`: known before the exit lemma is stated
+            lpi = self.cur.loop_post_isolated.get(ordinal)
+            if lpi is not None:
+                n_inv = 2 if extra is not None else 1
+                g = unwrap(lpi[1](NS(ex.env)))
+                ob = Obligation(self.cur_key, f'loop {ordinal} exit-lemma (isolated)', list(ex.pc[-n_inv:]) + list(lpi[0](NS(ex.env)) if callable(lpi[0]) else lpi[0]), g, s.lineno); ob.isolated = True
+                self.obls.append(ob); ex.pc.append(g)
             lp = self.cur.loop_post.get(ordinal)
             if lp is not None:
                 g = unwrap(lp(NS(ex.env))); self.oblige(ex, f'loop {ordinal} exit-lemma', g, s.lineno); ex.pc.append(g)
